@@ -196,6 +196,13 @@ class Check:
         cls = a['cls']
         ex = a['exposed']
         if isinstance(ex, str):
+            # reading what the message exposes raised.  Only three shapes do that in a message that still carries its roID:
+            # a roCreate / roReplace whose story listing cannot be evaluated, a roItemMoveMultiple without any itemID and a
+            # roStorySend without storyBody; a missing target container or a blank reference is reported as absent, never raised
+            legit = cls in ('RunningOrder', 'RunningOrderReplace') or (cls == 'ItemMoveMultiple' and not texts(b[4], 'itemID')) or \
+                (cls == 'StorySend' and not X.findall(b, 'storyBody'))
+            if not legit and X.findall(b, 'roID'):
+                return '%s: reading the exposed targets / sources raised %s' % (cls, ex[4:])
             return None
         d = dict(ex)
 
